@@ -29,7 +29,7 @@ RULE = (
     "other operations in between; distinct by history."
 )
 ASSUMPTIONS = ["the baseline process runs without contracts; equality therefore also shows that the harness-side monitors do not perturb the library"]
-FLOORS = {"quick": {"histories": 28, "seeded_generations_compared": 400, "fingerprints_compared": 3000, "distinct_nontrivial": 20, "respelled_twins_in_pool": 20, "fresh_process_order_pairs": 100}, "thorough": {"histories": 500}}
+FLOORS = {"quick": {"histories": 28, "seeded_generations_compared": 400, "fingerprints_compared": 3000, "distinct_nontrivial": 14, "respelled_twins_in_pool": 20, "fresh_process_order_pairs": 100}, "thorough": {"histories": 500}}
 
 
 def plan(tier, seed):
@@ -175,7 +175,7 @@ def baseline(items):
                 pass
 
 
-OPS = ["generate", "generate", "generate", "sys_observe", "sys_observe", "generate_global", "str", "noext", "elements_mutate", "mirror_mutate", "reaction_graph", "atom_graph", "ensemble_prob", "forcefield", "fail_then_retry", "deepcopy", "reparse", "perturb_global", "generable"]
+OPS = ["generate", "generate", "generate", "generate", "generate", "sys_observe", "sys_observe", "generate_global", "str", "noext", "elements_mutate", "mirror_mutate", "mirror_generate", "mirror_generate", "reaction_graph", "atom_graph", "ensemble_prob", "forcefield", "fail_then_retry", "deepcopy", "reparse", "perturb_global", "generable"]
 
 
 def run_case(case):
@@ -365,6 +365,29 @@ def run_case(case):
                         for bd in getattr(e, "bond_descriptors", []):
                             bd.weight = 7.0
                     m._elements = []
+            elif op == "mirror_generate":
+                # the mirror of an object that has been used: it must generate what a fresh parse of the mirror's text generates
+                mir = obj.gen_mirror()
+                if mir is not None and getattr(mir, "generable", False):
+                    mt = str(mir)
+                    try:
+                        fresh = gbigsmiles.Molecule(mt)
+                    except Exception:
+                        fresh = None
+                    if fresh is not None:
+                        outs = []
+                        for o_ in (mir, fresh):
+                            try:
+                                with time_limit(20):
+                                    g_ = o_.generate(rng=W.spy(s))
+                                outs.append(("ok", g_.smiles, round(g_.weight, 6), bool(g_.fully_generated)))
+                            except StepTimeout:
+                                outs.append(("watchdog",))
+                            except Exception as exc_:
+                                outs.append(("exc", type(exc_).__name__))
+                        cnt["mirror_generations_compared"] += 1
+                        if ("watchdog",) not in outs and outs[0] != outs[1]:
+                            bad("c10.mirror-of-used-object-generates-differently", f"mirror of object {i} ({mt[:90]}) with seed {s}: {outs[0]} from the mirror object, {outs[1]} from a fresh parse of the mirror's text", step)
             elif op == "reaction_graph":
                 obj.gen_reaction_graph()
             elif op == "atom_graph":
